@@ -55,7 +55,7 @@ def build_factory(cfg):
 def ctx_of(cfg):
     if cfg.get("sim"):
         return "sim"
-    return f"{cfg['kind']}/W{cfg['W']}" + ("/ask-backend" if not cfg.get("nodelay", True) else "")
+    return f"{cfg['kind']}/W{cfg['W']}" + ("/ask-backend" if not cfg.get("nodelay", True) else "") + ("" if cfg.get("mra", True) else "/nomra")
 
 
 def label(cfg):
@@ -119,6 +119,7 @@ def configs(tier, seed):
                            stop={"max_num_trials_started": 4 if tier == "quick" else 5}, F=1 if (pi % 2 == 0) else 0,
                            faults=("crash", "ext_stop"), wait=(pi % 4 < 2), async_=True,
                            max_exec=400 if tier == "quick" else 6000)
+                cfg["mra"] = (pi + ki) % 3 != 0     # every third configuration: jobs are not told where to stop
                 cfg["async"] = not (W == 2 and pi % 8 == 3)
                 cfg.pop("async_")
                 out.append(cfg)
